@@ -43,15 +43,19 @@ ParseVerdict(ev) ==
     ELSE IF Canonical(ev.text) /\ ev.r # ev.text THEN "canonical-text-changed"
     ELSE "ok"
 \* the user Bf3File.derive_comments_from_config: comment = text of the identifier, removed if there is none
+\* (it derives both identifiers: an undecodable name of the OTHER kind may make the whole call fail)
 CommentVerdict(ev, sd) ==
-    IF ev.ck = "raise" THEN "comment-raised"
+    IF sd.err = ErrUtf THEN (IF ev.ck = "set" THEN "comment-from-undecodable-name" ELSE "ok")
+    ELSE IF ev.ck = "raise" THEN
+         (IF Derive(IF ev.which = "prj" THEN "dev" ELSE "prj", ev.vals).err = ErrUtf THEN "ok" ELSE "comment-raised")
     ELSE IF ~sd.ok THEN (IF ev.ck = "unset" THEN "ok" ELSE "comment-not-removed")
     ELSE IF ~Printable(sd.id) THEN "ok"
     ELSE IF ev.ck # "set" \/ ev.ctext # PrintId(sd.id) THEN "comment-text"
     ELSE "ok"
 DeriveVerdict(ev) ==
     LET sd == Derive(ev.which, ev.vals) IN
-    IF ~sd.ok THEN (IF ev.k = "raise" /\ InSeq(sd.err, ev.mro) /\ InSeq("ConfigIdFormatError", ev.mro) THEN CommentVerdict(ev, sd)
+    IF ~sd.ok THEN (IF ev.k = "raise" /\ (InSeq("ConfigIdFormatError", ev.mro) \/ sd.err = ErrUtf) /\ (InSeq(sd.err, ev.mro) \/ sd.err = ErrUtf)
+                    THEN CommentVerdict(ev, sd)
                     ELSE IF ev.k = "raise" THEN "derive-wrong-exception" ELSE "derive-missing-not-reported")
     ELSE IF ev.k # "ok" THEN "derive-raised"
     ELSE IF Of(ev.f) # sd.id THEN "derive-fields"
